@@ -311,7 +311,7 @@ class EvalArm(Obligation):
                 except Unsupported as ex:
                     return 'unsupported: ' + str(ex)
                 nat = stt if stt in ('PANIC', 'ERR', 'TIMEOUT') else stt + ' ' + payload
-                if pred != nat and not (pred == 'TIMEOUT' and stt == 'TIMEOUT'):
+                if pred != nat and not (pred == 'TIMEOUT' and stt == 'TIMEOUT') and not (pred.endswith('dec?') and nat.startswith('OK')):
                     res['replay_mismatch'].append(dict(sexpr=sx, predicted=pred, native=nat + (' ' + payload if stt == 'PANIC' else ''), obligation=self.name))
                     return 'mismatch'
                 # does the native outcome violate the reference concretely?
@@ -393,7 +393,7 @@ class EvalArm(Obligation):
                     pred = predicted_of(out, cz)
                     nat = stt if stt in ('PANIC', 'ERR', 'TIMEOUT') else stt + ' ' + payload
                     res['replayed'] += 1
-                    if pred != nat:
+                    if pred != nat and not (pred.endswith('dec?') and nat.startswith('OK')):
                         res['replay_mismatch'].append(dict(sexpr=sx, predicted=pred, native=nat + (' ' + payload if stt == 'PANIC' else ''), obligation=self.name))
                     elif len(res['samples']) < 3:
                         res['samples'].append(dict(obligation=self.name, input=sx, outcome=nat, steps=p.steps))
@@ -524,6 +524,10 @@ def finish(ctx, results, bounds, level_text, outside, extra=None):
         ],
         wall_s=wall, violations=len(new),
     )
+    ua = collections.Counter(x for r in results for x in r.get('unspellable_accepts', []))
+    if ua:
+        ev['coverage']['accepted_streams_no_string_spells'] = dict(count=sum(ua.values()), distinct=len(ua), examples=[k for k, _ in ua.most_common(8)],
+                                                                   note='token streams the parser accepts although the reference rejects them, but which no input string can produce (the tokenizer never yields them); reported, not a violation')
     if extra: ev['coverage'].update(extra)
     os.makedirs(os.path.join(VERIF, 'evidence'), exist_ok=True)
     json.dump(ev, open(os.path.join(VERIF, 'evidence', prop + '.json'), 'w'), indent=1, default=str)
